@@ -3,7 +3,8 @@ Proof: lean/Props/C15.lean (model lean/PydapModel/Handler.lean).  Tie: outcome o
 `Request.blank(path?query).get_response(BaseHandler(ds))` — exception class / status / response kind / whole body —
 vs `Handler.handle` for generated datasets, valid CEs, fault-injected CEs and paths with / without / unknown
 extension.  Oracle: the property read directly off the webob response (no model), for the bare handler and for the
-handler behind the server-side-function middleware, with and without gzip."""
+handler behind the server-side-function middleware, with and without gzip, and for the same dataset with its
+sequences behind lazy row streams; histories of requests on several datasets held by one process (explore_histories)."""
 import common
 import handler_gen as G
 from common import hexb
@@ -187,6 +188,9 @@ def explore(ctx, tier, search=False):
         sx = G.ds_sexp(spec)
         ds = G.build(spec)
         apps = {"handler": BaseHandler(ds), "ssf": SSF(BaseHandler(ds)), "gzip": BaseHandler(ds, gzip=True)}
+        if any(v["k"] == "sq" and v["rows"] for v in spec["vars"]):
+            # the same dataset with its sequences behind lazy row streams (IterData): filters run when the stream is read
+            apps["lazy"] = BaseHandler(G.build(spec, lazy="plain"))
         reqs = []
         for _ in range(10):
             q, _exp = G.gen_valid_ce(rng, spec)
@@ -216,8 +220,10 @@ def explore(ctx, tier, search=False):
             ctx.count((sx, path, q), kind != "valid" or bool(q), tag="%s|%s|%s" % (kind, pcls, verdict),
                       sample={"path": path, "query": q, "outcome": impl[:60]})
             # the same request behind the function middleware and with gzip (oracle only)
-            for name in ("ssf", "gzip"):
+            for name in ("ssf", "gzip", "lazy"):
                 if name == "gzip" and rng.random() < 0.6:
+                    continue
+                if name == "lazy" and (name not in apps or rng.random() < 0.4):
                     continue
                 r2 = G.run_request(apps[name], path, q)
                 c2 = dict(case, app=name)
@@ -449,7 +455,8 @@ def replay(payload):
         return not qc.oracle_failures
     spec = spec_from_sexp(c["dataset"])
     ds = G.build(spec)
-    app = {"handler": lambda: BaseHandler(ds), "ssf": lambda: SSF(BaseHandler(ds)), "gzip": lambda: BaseHandler(ds, gzip=True)}[c["app"]]()
+    app = {"handler": lambda: BaseHandler(ds), "ssf": lambda: SSF(BaseHandler(ds)), "gzip": lambda: BaseHandler(ds, gzip=True),
+           "lazy": lambda: BaseHandler(G.build(spec, lazy="plain"))}[c["app"]]()
     res = G.run_request(app, c["path"], c["query"])
     print("request %s?%s on app=%s -> exc=%s status=%s description=%s body_exc=%s" % (
         c["path"], c["query"], c["app"], res["exc"], res["status"], res["cdesc"], res["body_exc"]))
